@@ -12,7 +12,9 @@ def fixes():
     by_commit = {}
     for f in kf:
         if f.get("status") == "fixed" and f.get("commit"):
-            by_commit.setdefault(f["commit"][:7], []).append(f)
+            for c in re.split(r"[,\s]+", f["commit"]):
+                if c:
+                    by_commit.setdefault(c[:7], []).append(f)
     log = subprocess.run(["git", "-C", "/repo", "log", "--reverse", "--format=%h\t%s", "--grep", "^fix:"], capture_output=True, text=True).stdout
     rows = ["| commit | property | what the commit does (subject) | finding |", "|---|---|---|---|"]
     for ln in log.splitlines():
